@@ -548,6 +548,70 @@ func mentionsFieldOwner(v ssa.Value, pkg, typ string, depth int) bool {
 
 // ---------------- C13: SSE emission typestate (E8) ----------------
 
+var writeEventMemo = map[*ssa.Function]int{}
+
+// isWriteEvent: the function that serialises one SSE event: it calls fmt.Fprintf with a constant format starting
+// with "event: " and has a string parameter (the event name) right after the writer.
+func isWriteEvent(fn *ssa.Function) bool {
+	if fn == nil || fn.Blocks == nil {
+		return false
+	}
+	if v, ok := writeEventMemo[fn]; ok {
+		return v == 1
+	}
+	writeEventMemo[fn] = 0
+	eachInstr(fn, func(in ssa.Instruction) {
+		if cc := getCall(in); cc != nil {
+			ci := describeCall(cc)
+			if ci.Pkg == "fmt" && ci.Name == "Fprintf" && len(cc.Args) >= 2 {
+				if f, ok := constString(cc.Args[1]); ok && strings.HasPrefix(f, "event: ") {
+					writeEventMemo[fn] = 1
+				}
+			}
+		}
+	})
+	return writeEventMemo[fn] == 1
+}
+
+// eventNameArg: the constant event name passed to the SSE writer at this call.
+func eventNameArg(cc *ssa.CallCommon) string {
+	for _, a := range cc.Args {
+		if s, ok := constString(a); ok && a.Type().String() == "string" {
+			return s
+		}
+	}
+	return ""
+}
+
+// emitsDelta: fn (or a repo callee in the package, bounded) emits content_block_delta.
+func emitsEvent(c *Ctx, fn *ssa.Function, ev string, depth int, seen map[*ssa.Function]bool) bool {
+	if fn == nil || depth == 0 || seen[fn] || fn.Blocks == nil {
+		return false
+	}
+	seen[fn] = true
+	found := false
+	eachInstr(fn, func(in ssa.Instruction) {
+		cc := getCall(in)
+		if cc == nil {
+			return
+		}
+		sc := cc.StaticCallee()
+		if sc == nil {
+			return
+		}
+		if isWriteEvent(sc) {
+			if eventNameArg(cc) == ev {
+				found = true
+			}
+			return
+		}
+		if strings.HasSuffix(fnPkgPath(sc), pkgAnthropic) && emitsEvent(c, sc, ev, depth-1, seen) {
+			found = true
+		}
+	})
+	return found
+}
+
 type sseG struct {
 	started int8 // code's belief: messageStartSent
 	block   int8 // code's belief: 0 none, 1 text, 2 tool, 3 unknown
@@ -873,8 +937,8 @@ func (s *sseSim) doCall(x *ssa.Call, env map[ssa.Value]absV, g sseG, depth int) 
 	if sc == nil || !s.c.inRepo(sc) || !strings.HasSuffix(fnPkgPath(sc), pkgAnthropic) {
 		return []sseG{g}
 	}
-	if sc.Name() == "writeEvent" {
-		ev, _ := constString(cc.Args[2])
+	if isWriteEvent(sc) {
+		ev := eventNameArg(cc)
 		s.emits++
 		return []sseG{s.emit(x, ev, g)}
 	}
@@ -972,12 +1036,16 @@ func (s *sseSim) emit(call *ssa.Call, ev string, g sseG) sseG {
 
 // deltaType: the constant "type" inside the "delta" sub-map of the event payload.
 func deltaType(call *ssa.Call) string {
-	payload := call.Call.Args[3]
-	if mi, ok := payload.(*ssa.MakeInterface); ok {
-		payload = mi.X
+	var mm *ssa.MakeMap
+	for _, a := range call.Call.Args {
+		if mi, ok := a.(*ssa.MakeInterface); ok {
+			a = mi.X
+		}
+		if m, ok := a.(*ssa.MakeMap); ok {
+			mm = m
+		}
 	}
-	mm, ok := payload.(*ssa.MakeMap)
-	if !ok {
+	if mm == nil {
 		return ""
 	}
 	for _, ref := range *mm.Referrers() {
@@ -1016,8 +1084,38 @@ func checkC13(c *Ctx, r *Report) {
 	r.Assumptions = []string{"writeEvent/Flush failures end the stream (error branches pruned)", "unknown conditions fork both ways (over-approximation); only the tracked fields are interpreted"}
 
 	top := c.Fn(pkgAnthropic, "(*Translator).TransformStreamingResponse")
-	line := c.Fn(pkgAnthropic, "(*Translator).processStreamLine")
-	sync := c.Fn(pkgAnthropic, "(*Translator).transformStreamingSync")
+	// the per-line handler: the package function with a string parameter that is called inside a loop (the scanner loop)
+	// by a function reachable from the entry point; the function holding that loop is the line loop.
+	var line, sync *ssa.Function
+	if top != nil {
+		seenF := map[*ssa.Function]bool{}
+		var find func(f *ssa.Function, d int)
+		find = func(f *ssa.Function, d int) {
+			if f == nil || seenF[f] || d == 0 || f.Blocks == nil {
+				return
+			}
+			seenF[f] = true
+			eachInstr(f, func(in ssa.Instruction) {
+				cc := getCall(in)
+				if cc == nil {
+					return
+				}
+				sc := cc.StaticCallee()
+				if sc == nil || !strings.HasSuffix(fnPkgPath(sc), pkgAnthropic) {
+					return
+				}
+				if line == nil && inLoop(in.Block()) {
+					for _, p := range sc.Params {
+						if p.Type().String() == "string" && emitsEvent(c, sc, "content_block_delta", 5, map[*ssa.Function]bool{}) {
+							line, sync = sc, f
+						}
+					}
+				}
+				find(sc, d-1)
+			})
+		}
+		find(top, 4)
+	}
 	r.Rule("C13-R1", "ESP-style property simulation: product of the translator's abstract state and the SSE grammar automaton over the interprocedural CFG of TransformStreamingResponse; every reachable writeEvent must be legal and every normal completion must end in the final grammar state", 8)
 	if top == nil || line == nil || sync == nil {
 		r.Unresolved("C13-R1", "TransformStreamingResponse / transformStreamingSync / processStreamLine")
@@ -1032,9 +1130,8 @@ func checkC13(c *Ctx, r *Report) {
 			}
 			eachInstr(f, func(in ssa.Instruction) {
 				if call, ok := in.(*ssa.Call); ok {
-					if sc := call.Call.StaticCallee(); sc != nil && sc.Name() == "writeEvent" && strings.Contains(fname(f), "Translator") && !strings.Contains(fname(f), "test") {
-						ev, _ := constString(call.Call.Args[2])
-						sites[fname(f)+":"+ev] = in.Pos()
+					if sc := call.Call.StaticCallee(); isWriteEvent(sc) && strings.Contains(fname(f), "Translator") && !strings.Contains(fname(f), "test") {
+						sites[fname(f)+":"+eventNameArg(&call.Call)] = in.Pos()
 					}
 				}
 			})
@@ -1104,11 +1201,13 @@ func checkC13(c *Ctx, r *Report) {
 		var capture ssa.Instruction
 		var handlers []ssa.Instruction
 		eachInstr(line, func(in ssa.Instruction) {
-			if st, ok := in.(*ssa.Store); ok && isField(st.Addr, pkgAnthropic, "StreamingState", "lastFinishReason") {
-				capture = in
+			if st, ok := in.(*ssa.Store); ok && fromLookupKey(st.Val, "finish_reason", 8) {
+				if _, isFA := st.Addr.(*ssa.FieldAddr); isFA {
+					capture = in
+				}
 			}
 			if cc := getCall(in); cc != nil {
-				if sc := cc.StaticCallee(); sc != nil && (sc.Name() == "handleContentDelta" || sc.Name() == "handleToolCallsDelta") {
+				if sc := cc.StaticCallee(); sc != nil && strings.HasSuffix(fnPkgPath(sc), pkgAnthropic) && emitsEvent(c, sc, "content_block_delta", 5, map[*ssa.Function]bool{}) {
 					handlers = append(handlers, in)
 				}
 			}
@@ -1131,8 +1230,28 @@ func checkC13(c *Ctx, r *Report) {
 
 	// ---------- R3 ----------
 	r.Rule("C13-R3", "in the text-delta handler every path on which the delta text is non-empty reaches the content_block_delta emission: no condition on the text other than the caller's empty-string test suppresses it", 1)
-	if hd := c.Fn(pkgAnthropic, "(*Translator).handleContentDelta"); hd == nil {
-		r.Unresolved("C13-R3", "(*Translator).handleContentDelta")
+	var hd *ssa.Function
+	for _, f := range c.Funcs {
+		if f.Parent() != nil || !strings.HasSuffix(fnPkgPath(f), pkgAnthropic) {
+			continue
+		}
+		hasStr := false
+		for _, p := range f.Params {
+			if p.Type().String() == "string" {
+				hasStr = true
+			}
+		}
+		if !hasStr {
+			continue
+		}
+		eachInstr(f, func(in ssa.Instruction) {
+			if call, ok := in.(*ssa.Call); ok && isWriteEvent(call.Call.StaticCallee()) && eventNameArg(&call.Call) == "content_block_delta" && deltaType(call) == "text_delta" {
+				hd = f
+			}
+		})
+	}
+	if hd == nil {
+		r.Unresolved("C13-R3", "function that emits content_block_delta/text_delta for a string argument")
 	} else {
 		var content *ssa.Parameter
 		for _, p := range hd.Params {
@@ -1144,11 +1263,8 @@ func checkC13(c *Ctx, r *Report) {
 		bad := ""
 		// any If whose condition depends on the content parameter (directly or via a call taking it) and that can lead to a return without the delta emission
 		isDelta := func(in ssa.Instruction) bool {
-			if call, ok := in.(*ssa.Call); ok {
-				if sc := call.Call.StaticCallee(); sc != nil && sc.Name() == "writeEvent" {
-					ev, _ := constString(call.Call.Args[2])
-					return ev == "content_block_delta"
-				}
+			if call, ok := in.(*ssa.Call); ok && isWriteEvent(call.Call.StaticCallee()) {
+				return eventNameArg(&call.Call) == "content_block_delta"
 			}
 			return false
 		}
